@@ -17,9 +17,9 @@ BIND = {"bPlain": "noise_final_samples", "bDim": "max_iter", "aPlain": "tol_fun"
         "aDim": "tol_stall_iters", "aDep": "tol_noise"}
 USER_VALUES = {"noise_final_samples": 3, "max_iter": 7, "tol_fun": 1e-2, "tol_stall_iters": 9,
                "tol_noise": 1e-7}
-INST_D = {1: 2, 2: 3, 3: 1}
-INST_USER = {1: {"aPlain", "bDim"}, 2: set(), 3: {"aDim", "aDep", "bPlain"}}
-INST_NOISY = {1: True, 2: False, 3: True}
+INST_D = {1: 2, 2: 3, 3: 1, 4: 2}
+INST_USER = {1: {"aPlain", "bDim"}, 2: set(), 3: {"aDim", "aDep", "bPlain"}, 4: set()}
+INST_NOISY = {1: True, 2: False, 3: True, 4: False}
 # options that optimize() legitimately rewrites for its own instance
 RUN_MUTABLE = {"max_fun_evals", "noise_final_samples", "tol_stall_iters", "n_train_max", "n_train_min",
                "mesh_overflow_warning", "min_failed_poll_steps", "mesh_noise_multiplier", "noise_size",
@@ -264,9 +264,17 @@ def run(verdict, tier):
     hists = sorted({tuple((op[0], op[1]) for op in st["hist"]) for st in states}, key=lambda h: (len(h), h))
     maximal = [h for h in hists if not any(len(g) == len(h) + 1 and g[:len(h)] == h for g in hists)]
     if tier == "quick":
-        use = maximal[::3] + [h for h in hists if len(h) == 3][::4]
+        # construction orders matter most: every order of the 4 constructions (24), each followed by
+        # runs in a rotating order, plus a stratified sample of the interleaved schedules
+        conly = [h for h in hists if len(h) == 4 and all(op == "C" for op, _ in h)]
+        use = []
+        for ci, c in enumerate(conly):
+            ext = [h for h in maximal if h[:4] == c]
+            use.append(ext[ci % len(ext)] if ext else c)
+        rest = [h for h in maximal if h not in use]
+        use += rest[:: max(1, len(rest) // 24)]
     else:
-        use = maximal + [h for h in hists if 2 <= len(h) <= 5]
+        use = maximal
     ctx = mp.get_context("fork")
     n = os.cpu_count() or 4
     nviol = 0
